@@ -661,6 +661,7 @@ coap_new_context(const coap_address_t *listen_addr) {
 
   coap_lock_lock(c, coap_free_type(COAP_CONTEXT, c); return NULL);
 #ifdef COAP_EPOLL_SUPPORT
+  c->eptimerfd = -1;
   c->epfd = epoll_create1(0);
   if (c->epfd == -1) {
     coap_log_err("coap_new_context: Unable to epoll_create: %s (%d)\n",
@@ -701,6 +702,7 @@ coap_new_context(const coap_address_t *listen_addr) {
     if (!c->dtls_context) {
       coap_log_emerg("coap_init: no DTLS context available\n");
       coap_free_context_lkd(c);
+      coap_lock_unlock(c);
       return NULL;
     }
   }
@@ -725,7 +727,8 @@ coap_new_context(const coap_address_t *listen_addr) {
 
 #if defined(COAP_EPOLL_SUPPORT) || COAP_SERVER_SUPPORT
 onerror:
-  coap_free_type(COAP_CONTEXT, c);
+  coap_free_context_lkd(c);
+  coap_lock_unlock(c);
   return NULL;
 #endif /* COAP_EPOLL_SUPPORT || COAP_SERVER_SUPPORT */
 }
